@@ -71,6 +71,77 @@ fn string_round_trip(s: &str) -> bool {
     a.as_deref() == Some(s.trim_matches(' ')) && t.as_deref() == Some(s) && sd.character_data().and_then(|c| c.string_value()).as_deref() == Some(s)
 }
 
+/// for every reachable element type with an enumeration text or an enumeration-valued attribute: a minimal document in the
+/// newest version, every item (that exists in that version) set, the file written and loaded strictly, the value compared
+fn enum_documents() -> (usize, usize, Vec<String>) {
+    use crate::types::{path_to, reach};
+    use autosar_data_specification::CharacterDataSpec;
+    use std::str::FromStr;
+    let r = reach();
+    let ver = AutosarVersion::LATEST;
+    let (mut checked, mut types, mut failures) = (0usize, 0usize, vec![]);
+    for t in r.order.iter().copied() {
+        let text_items: Vec<EnumItem> = match t.chardata_spec() {
+            Some(CharacterDataSpec::Enum { items }) => items.iter().filter(|(_, m)| ver.compatible(*m)).map(|(i, _)| *i).collect(),
+            _ => vec![],
+        };
+        let attr_items: Vec<(AttributeName, Vec<EnumItem>)> = t.attribute_spec_iter().filter_map(|(an, spec, _)| match spec {
+            CharacterDataSpec::Enum { items } if t.find_attribute_spec(an).is_some_and(|s| ver.compatible(s.version)) =>
+                Some((an, items.iter().filter(|(_, m)| ver.compatible(*m)).map(|(i, _)| *i).collect())),
+            _ => None,
+        }).collect();
+        if text_items.is_empty() && attr_items.iter().all(|(_, v)| v.is_empty()) {
+            continue;
+        }
+        // build the creation path once
+        let model = AutosarModel::new();
+        let Ok(file) = model.create_file("e.arxml", ver) else { continue };
+        let mut cur = model.root_element();
+        let mut ok = true;
+        let mut k = 0;
+        for (name, mask) in path_to(&r, t) {
+            if !ver.compatible(mask) { ok = false; break; }
+            let named = cur.element_type().find_sub_element(name, ver as u32).map(|(ct, _)| ct.is_named_in_version(ver)).unwrap_or(false);
+            let nx = if named { k += 1; cur.create_named_sub_element(name, &format!("n{k}")) } else { cur.create_sub_element(name) };
+            match nx { Ok(e) => cur = e, Err(_) => { ok = false; break; } }
+        }
+        if !ok || cur.element_type() != t {
+            continue;
+        }
+        types += 1;
+        let mut check = |what: &str, set: &dyn Fn(&Element) -> bool, get: &dyn Fn(&Element) -> Option<EnumItem>, item: EnumItem| {
+            if !set(&cur) {
+                return; // the editing API refuses the value: not a question of this property
+            }
+            checked += 1;
+            let Ok(text) = file.serialize() else { failures.push(format!("{what} {}: serialize failed", item.to_str())); return };
+            let m2 = AutosarModel::new();
+            // (lenient: required attributes of the elements on the creation path were never set)
+            match m2.load_buffer(text.as_bytes(), "e.arxml", false) {
+                Err(e) => { if failures.len() < 8 { failures.push(format!("{} {what} = {}: {e}", cur.element_name().to_str(), item.to_str())); } }
+                Ok(_) => {
+                    let back = m2.elements_dfs().map(|(_, e)| e).filter(|e| e.element_type() == t).last().and_then(|e| get(&e));
+                    if back != Some(item) && failures.len() < 8 {
+                        failures.push(format!("{} {what} = {} read back as {:?}", cur.element_name().to_str(), item.to_str(), back.map(|b| b.to_str())));
+                    }
+                }
+            }
+        };
+        for it in text_items {
+            check("text", &|e| e.set_character_data(it).is_ok(), &|e| e.character_data().and_then(|c| c.enum_value()), it);
+        }
+        for (an, items) in attr_items {
+            // at most 40 items per attribute, spread over the list (DEST lists have hundreds of entries per reference type)
+            let step = (items.len() / 40).max(1);
+            for it in items.into_iter().step_by(step) {
+                check(an.to_str(), &|e| e.set_attribute(an, it).is_ok(), &|e| e.attribute_value(an).and_then(|c| c.enum_value()), it);
+            }
+        }
+        let _ = EnumItem::from_str("x");
+    }
+    (checked, types, failures)
+}
+
 pub fn run(input: &str, output: &str) -> Value {
     let fin = std::fs::File::open(input).unwrap();
     let mut out = std::io::BufWriter::new(std::fs::File::create(output).unwrap());
@@ -164,6 +235,13 @@ pub fn run(input: &str, output: &str) -> Value {
     edges!(u8, i8, u16, i16, u32, i32, u64, i64, usize, isize);
     writeln!(out, "{}", json!({"kind": "fmt", "text": "MAX and MAX + 1 of every integer width in every lexical form", "inform": true, "finform": false, "exp": {}, "got": {}, "fgot": [], "fexp": {}, "fcanon": {}, "bexp": [], "bool": [], "panic": false, "same": edge_ok})).unwrap();
     n += 1;
+    // every enumeration item of every element text and attribute, through a written document and the strict loader
+    {
+        let (checked, types, failures) = enum_documents();
+        writeln!(out, "{}", json!({"kind": "fmt", "text": format!("{checked} enumeration values of {types} element types written to a document and loaded again; failures: {}", failures.join(" | ")),
+            "inform": true, "finform": false, "exp": {}, "got": {}, "fgot": [], "fexp": {}, "fcanon": {}, "bexp": [], "bool": [], "panic": false, "same": failures.is_empty() && checked > 1000})).unwrap();
+        n += 1;
+    }
     // every enumeration item: text -> item -> text
     let mut enum_ok = true;
     let mut enum_n = 0;
